@@ -491,7 +491,7 @@ func genSchedule(r *vh.Rand, n int) *Schedule {
 // paths); each frame may be accepted at most once, and accepted counters must
 // respect the window. Monitor only (the schedule is not deterministic).
 func concurrentDeliveries(c *vh.Ctx) {
-	rounds := c.N(120, 3000)
+	rounds := c.N(80, 3000)
 	for round := 0; round < rounds; round++ {
 		ski, skr, err := newPair()
 		if err != nil {
@@ -578,11 +578,24 @@ func main() {
 	}
 
 	if c.Replay != "" {
-		var s Schedule
-		if err := c.ReadReplay(&s); err != nil {
-			panic(err)
+		var probe struct {
+			Kind string `json:"kind"`
 		}
-		do(&s)
+		c.ReadReplay(&probe)
+		switch probe.Kind {
+		case "closed-endpoint":
+			closedEndpoints(c)
+		case "icmp-ack-replay":
+			icmpAckReplay(c)
+		case "concurrent-duplicate-delivery":
+			concurrentDeliveries(c)
+		default:
+			var s Schedule
+			if err := c.ReadReplay(&s); err != nil {
+				panic(err)
+			}
+			do(&s)
+		}
 	} else {
 		for _, s := range fixedWitnesses() {
 			do(s)
@@ -590,7 +603,7 @@ func main() {
 		}
 		// vh.NewRand gives overlapping streams for neighbouring seeds; re-key
 		root := vh.NewRand(int64(uint64(c.Seed)*0xD1342543DE82EF95 + 0x632BE59BD9B4E019))
-		n := c.N(300, 5000)
+		n := c.N(240, 5000)
 		for i := 0; i < n; i++ {
 			r := root.Fork()
 			do(genSchedule(r, r.Pick(4, 8, 16, 30, 45)))
@@ -599,6 +612,8 @@ func main() {
 
 	if c.Replay == "" {
 		concurrentDeliveries(c)
+		closedEndpoints(c)
+		icmpAckReplay(c)
 	}
 
 	var sb strings.Builder
